@@ -29,7 +29,7 @@ void center_of_mass(const numpy::aligned_array<T> array, npy_double* centers, co
         const double val = *pos;
         const int label = (labels ? labels[i] : 0);
         totals[label] += val;
-        npy_double* centers_label = centers + label*nd;
+        npy_double* centers_label = centers + npy_intp(label)*nd;
         for (int j = 0; j != nd; ++j) {
             centers_label[j] += val * pos.index_rev(j);
         }
@@ -69,17 +69,24 @@ PyObject* py_center_of_mass(PyObject* self, PyObject* args) {
             }
             if (labels[i] > max_label) max_label = labels[i];
         }
-        totals = new(std::nothrow) double[max_label+1];
+    }
+    // max_label + 1 as an int overflows for a label equal to INT_MAX
+    const npy_intp n_labels = npy_intp(max_label) + 1;
+    if (labels) {
+        totals = new(std::nothrow) double[n_labels];
         if (!totals) {
             PyErr_NoMemory();
             return NULL;
         }
-        std::fill(totals, totals + max_label + 1, 0.0);
+        std::fill(totals, totals + n_labels, 0.0);
     }
     npy_intp dims[1];
-    dims[0] = PyArray_NDIM(array) * (max_label+1);
+    dims[0] = PyArray_NDIM(array) * n_labels;
     PyArrayObject* centers = (PyArrayObject*)PyArray_SimpleNew(1, dims, NPY_DOUBLE);
-    if (!centers) return NULL;
+    if (!centers) {
+        if (labels) delete [] totals;
+        return NULL;
+    }
     { // DROP THE GIL
         gil_release nogil;
         npy_double* centers_v = ndarray_cast<npy_double*>(centers);
@@ -98,7 +105,7 @@ PyObject* py_center_of_mass(PyObject* self, PyObject* args) {
             }
         }
         const int nd = PyArray_NDIM(array);
-        for (int label = 0; label != (max_label+1); ++label) {
+        for (npy_intp label = 0; label != n_labels; ++label) {
             for (int j = 0; j != nd; ++j) {
                 centers_v[label*nd+j] /= totals[label];
             }
